@@ -152,6 +152,10 @@ def random_patterns(rng, model):
         elif k < 0.55:
             c = rng.choice(classes)
             pats.append(rng.choice([c, '^' + c + '$', c[:3], c.lower(), c[-4:]]))
+        elif k < 0.62:
+            # patterns whose meaning depends on being compiled on their own: capture groups, back-references, inline flags
+            pats.append(rng.choice(['(fc|conv|head)\\d', r'(\d)\.\1', r'(\d)\.(\d)\.\2', '(?i)linear', '(?i)' + rng.choice(names or ['fc']).upper(), r'(a|b)\1', '(?i)CONV',
+                                    r'layer(\d)?', '(proj|attn)(\\d)?$']))
         elif k < 0.75:
             pats.append(rng.choice([r'\d', r'^\d+$', r'\.\d$', r'[ab]\d', 'fc|head', r'^.$', r'\.', 'Linear$', '^Linear', 'near', 'conv', 'Conv', r'^$', 'attn.*proj']))
         else:
